@@ -6,6 +6,7 @@ CORE = {"add", "prepend", "drain", "remove", "addbuf", "prependbuf", "rmbuf", "p
 SPACE = {"add", "prepend", "expand", "rescommit", "addiov", "printf", "drain", "pullup", "rmbuf"}
 REFS = {"add", "addref", "addbufref", "addfile", "drain", "remove", "rmbuf", "addbuf", "prependbuf", "pullup", "prepend"}
 MOVES = {"add", "rmbuf", "addbuf", "prependbuf", "drain", "remove", "pullup", "prepend"}
+SWEEP = ("b", "bL", "bCL", "bCLC", "bCLCL")        # WB .. WB+4 bytes
 BIGDATA = ("", "a", "b", "aCL", "L", "N", "bLa", "C", "aa", "LC", "bNa")
 
 
@@ -27,6 +28,11 @@ def run(tier, seed):
                                                   wa=331, wb=1021, data=("bLa",) if q else ("a", "bLa"), nsel=(1, 9) if q else (0, 1, 2, 9)), stride=2 if q else 1),
         # empty destinations that still own an (empty) chain: expand / add(0 bytes) then add_buffer_reference (fixed finding a5482ec)
         dict(name="C12_exh_abr", consts=ec.consts({"add", "expand", "addbufref", "drain"}, 3, wa=37, wb=331, data=("", "a"), nsel=(1, 9), sizes=(100,))),
+        # add_printf whose formatted length is exactly the free room of the chain written to (and 1, 2 bytes either side):
+        # fresh buffer (976-byte chain), after a 7-byte prefix (969 left), after 1500 bytes in a 2000-byte chain (500 left)
+        dict(name="C12_printf_fresh", consts=ec.consts({"printf"}, 1, wa=7, wb=974, data=SWEEP)),
+        dict(name="C12_printf_p7", consts=ec.consts({"add", "printf"}, 2, wa=7, wb=967, data=("a",) + SWEEP, warm=1)),
+        dict(name="C12_printf_p1500", consts=ec.consts({"add", "printf"}, 2, wa=1500, wb=498, data=("a",) + SWEEP, warm=1)),
         # multi-chain start states: 3 forced single-symbol adds, then every 2-call (3-call) history of the move family
         dict(name="C12_warm_moves", consts=ec.consts((MOVES - {"remove", "prepend", "prependbuf"}) if q else MOVES, 5, wa=1021, wb=4099,
                                                     data=("a", "b"), nsel=(1, 2, 9), warm=3)),
@@ -36,7 +42,7 @@ def run(tier, seed):
         gen.append(dict(name="C12_rand_%d_%d" % (wa, wb),
                         consts=ec.consts(A, 16 if q else 30, wa=wa, wb=wb, data=BIGDATA, nsel=(0, 1, 2, 3, 5, 9),
                                          sizes=(0, 100, 2000, 5000), maxlen=8 if q else 10),
-                        simulate=6 if q else 60, depth=80))
+                        simulate=5 if q else 60, depth=80))
     if not q:
         gen += [
             dict(name="C12_exh_all2", consts=ec.consts(A, 2, wa=509, wb=2048, data=("a", "aCL", "N"), nsel=(1, 9), sizes=(2000,)),
@@ -70,7 +76,10 @@ def run(tier, seed):
                 "with the specification for BOTH buffers, and the chain list is validated through evbuffer-internal.h "
                 "(first/last/last_with_datap, total_len = sum off, misalign+off <= buffer_len, refcnt). "
                 "distinct = distinct (widths, call sequence); non-trivial = >= 2 content-relevant calls.",
-        "need_hist": {"C12_exh_abr": lambda h: [x["a"] for x in h] == ["add", "expand", "addbufref"]},
+        "need_hist": {"C12_printf_fresh": lambda h: h[0]["a"] == "printf" and h[0]["o"]["r"] == 976,
+                      "C12_printf_p7": lambda h: h[1]["a"] == "printf" and h[1]["b"] == 1 and h[0]["d"] == ["a"] and h[1]["o"]["r"] == 969,
+                      "C12_printf_p1500": lambda h: h[1]["a"] == "printf" and h[1]["b"] == 1 and h[0]["d"] == ["a"] and h[1]["o"]["r"] == 500,
+                      "C12_exh_abr": lambda h: [x["a"] for x in h] == ["add", "expand", "addbufref"]},
         "assumptions": ["positions handed to the library are symbol boundaries (sizes in bytes are prefix sums of symbol widths)",
                         "on failure evbuffer_add_file_segment consumes the caller's segment reference (as evbuffer_add_file relies on)",
                         "evbuffer_add_buffer_reference from a buffer that may hold file-segment/multicast chains is not generated",
